@@ -29,8 +29,10 @@ def run(ctx):
                 ("emitterAddress", 12, 32), ("sequence", 44, 8), ("consistencyLevel", 52, 1), ("payload", 53, 0)]
         bad = [e for e in facts["solBody"] if e not in want] + [e for e in want if e not in facts["solBody"]]
         badr = [e for e in facts["ralBody"] if e not in want]
-        flags = [k for k in ("goDoubleHash", "solDoubleHash", "ralDoubleHash", "solVersionCheck") if not facts[k]]
-        if bad or badr or flags or facts["ralBodyStart"] != (6, 66) or facts.get("ralConvMismatch") or facts.get("ralBodyStartCount") != "signatureSize":
+        # a hashing / version-check pattern that was merely not recognised is no deviation: it stays an unproved theorem
+        # (no-failing-input-found); only offsets that were extracted and differ are reported as the failing input
+        flags = [k for k in ("solDoubleHash", "ralDoubleHash", "solVersionCheck") if not facts[k]]
+        if bad or badr or facts["ralBodyStart"] != (6, 66) or facts.get("ralConvMismatch") or facts.get("ralBodyStartCount") != "signatureSize":
             ctx.spec_violations.append({"key": "contract-layout-mismatch",
                                         "what": "contract parser layout deviates from the Go serializer: sol=%s ral=%s flags=%s" % (bad, badr, flags),
                                         "replay": {"solBody": facts["solBody"], "ralBody": facts["ralBody"], "expected": want,
